@@ -59,7 +59,7 @@ def run(ctx):
   from fedjax.core import sqlite_federated_data as sq  # pylint: disable=g-import-not-at-top
   from vf.props import c13_worker
   paths = {}
-  for n in (3, 6, 10):
+  for n in (3, 5, 6, 10):
     path = os.path.join(ctx.scratch, f's{n}.sqlite')
     _, data = c13_worker.build_fd(fedjax, 'mem', IDS[:n])
     order = list(IDS[:n])
@@ -84,6 +84,10 @@ def run(ctx):
   cfgs += [('stream', 'mem', 6, 2), ('stream', 'slice', 6, 3), ('stream', 'subset', 3, 1), ('stream', 'sqlsub', 6, 3), ('stream', 'sql', 10, 4)]
   if not big:
     cfgs = cfgs[::2] + cfgs[-2:]
+  # streaming: cohorts that straddle the passes of the repeating shuffled stream (population not a multiple of the cohort
+  # size; the same client may then occur twice in a cohort), several stream seeds / buffer sizes each
+  for _ in range(4 if big else 2):
+    cfgs += [('stream', 'mem', 3, 2), ('stream', 'mem', 5, 3), ('stream', 'sql', 10, 4)]
   per_cfg = (len(get_h) // 4) if big else 60
   trs = []
   intern_out, intern_key = Interner(), Interner()
